@@ -145,6 +145,11 @@ var Texts = map[string]string{
 module idu { namespace "urn:idu"; prefix idu; import ida { prefix a; } identity d { base a:x; } identity e { base a:top; } leaf r { type identityref { base a:top; } } }`,
 	"sr1": `submodule ids { belongs-to ida { prefix ida; } revision 2020-01-01; identity x { base ida:top; } identity only1 { base ida:lone; } }`,
 	"sr2": `submodule ids { belongs-to ida { prefix ida; } revision 2021-01-01; identity z { base ida:top; } }`,
+	// a base identity whose only derived identity lives in the older revision of an included submodule: once the newer
+	// revision is loaded nothing is derived from it any more (and nothing else goes wrong in that run)
+	"lo":  `module lom { namespace "urn:lom"; prefix lom; include los; identity lone; identity kept; leaf r { type identityref { base lone; } } }`,
+	"lo1": `submodule los { belongs-to lom { prefix lom; } revision 2020-01-01; identity only1 { base lom:lone; } identity k1 { base lom:kept; } }`,
+	"lo2": `submodule los { belongs-to lom { prefix lom; } revision 2021-01-01; identity other; identity k2 { base lom:kept; } }`,
 	// read from a FILE (Modules.Read) in the directory that also holds its dependency bbf.yang and the broken xf.yang
 	"ibf": `module ibf { namespace "urn:ibf"; prefix ibf; import bbf { prefix b; } leaf l { type b:tf; } }`,
 	"bbf": `module bbf { namespace "urn:bbf"; prefix bbf; typedef tf { type string; units "from-file"; } }`,
@@ -525,7 +530,7 @@ func exec(kind byte, body []byte) *core.Verdict {
 // given texts: what the property promises must hold however the set was arrived at.
 var first = map[string]bool{"i1": true, "t2": true, "t2b": true, "t2c": true, "a3": true, "m4": true, "s4": true, "bb-r1": true, "bb-r2": true, "ib": true, "e5": true}
 
-var third = map[string]bool{"idm": true, "idb": true, "fm1": true, "fm2": true, "fs": true, "au": true, "sr1": true, "sr2": true, "ibf": true}
+var third = map[string]bool{"lo": true, "lo1": true, "lo2": true, "idm": true, "idb": true, "fm1": true, "fm2": true, "fs": true, "au": true, "sr1": true, "sr2": true, "ibf": true}
 
 func Histories(r *core.Run, prop string, texts ...string) {
 	core.CaseSuffix = `,"prop":"` + prop + `"}`
@@ -586,7 +591,7 @@ func check(r *core.Run) {
 
 var goodIDs = []string{"t2c", "ib", "bb-r1", "bb-r2", "e5", "i1", "t2", "a3", "m4", "s4", "t2b",
 	"fd", "e6", "tgt", "tgt2", "dv", "dvok", "rv", "lnk", "bg",
-	"idm", "idb", "fm1", "fm2", "fs", "au", "sr1", "sr2"}
+	"idm", "idb", "fm1", "fm2", "fs", "au", "sr1", "sr2", "lo", "lo1", "lo2"}
 
 // (the text read from a FILE, "ibf", is left to the exhaustive third catalogue: a successful Read makes its directory part
 // of the search path, and a later Process may then fetch bb.yang from there for an importer of bb - a load that
@@ -619,7 +624,7 @@ func genSession(body []byte) *core.Verdict {
 	rng.Shuffle(len(pool), func(i, j int) { pool[i], pool[j] = pool[j], pool[i] })
 	pool = pool[:4+rng.Intn(5)]
 	// texts that belong together travel together
-	for _, grp := range [][]string{{"a3", "t2", "i1"}, {"ib", "bb-r1", "bb-r2"}, {"m4", "s4"}, {"dv", "tgt"}, {"dvok", "tgt"}, {"idm", "idb"}, {"au", "sr1", "sr2"}, {"fm1", "fs", "fm2"}} {
+	for _, grp := range [][]string{{"a3", "t2", "i1"}, {"ib", "bb-r1", "bb-r2"}, {"m4", "s4"}, {"dv", "tgt"}, {"dvok", "tgt"}, {"idm", "idb"}, {"au", "sr1", "sr2"}, {"fm1", "fs", "fm2"}, {"lo", "lo1", "lo2"}} {
 		for _, p := range pool {
 			if p == grp[0] {
 				pool = append(pool, grp[1:]...)
